@@ -152,6 +152,16 @@ fn sv(xs: &[&str]) -> Vec<String> {
 fn lib_blp_load(p: &Path) -> R {
     wow_blp::parser::load_blp(p).map(|_| ()).map_err(es)
 }
+/// What `blp validate --strict` promises on top of loading: a texture with a zero or non-power-of-two dimension does not
+/// pass (the non-strict mode only warns about it). The dimensions come from the library's parse of the same file.
+fn lib_blp_strict(p: &Path) -> R {
+    let img = wow_blp::parser::load_blp(p).map_err(es)?;
+    let (w, h) = (img.header.width, img.header.height);
+    if w == 0 || h == 0 || !w.is_power_of_two() || !h.is_power_of_two() {
+        return Err(format!("strict validation cannot pass: {w}x{h} has a dimension that is zero or not a power of two"));
+    }
+    Ok(())
+}
 fn lib_blp_to_png(p: &Path) -> R {
     let img = wow_blp::parser::load_blp(p).map_err(es)?;
     wow_blp::convert::blp_to_image(&img, 0).map(|_| ()).map_err(es)
@@ -628,7 +638,7 @@ fn plan(fmt: &str, seed: &Seed, class: &str, p: &Path, tmp: &Path, schema_path: 
             with_facts!(facts_blp_info(p));
             add!("blp", "info", "all", sv(&["blp", "info", "{in}", "--all", "--raw", "--best-mipmap-for", "4"]), load.clone(), None, "text");
             add!("blp", "validate", "default", sv(&["blp", "validate", "{in}"]), load.clone(), None, "text");
-            add!("blp", "validate", "strict", sv(&["blp", "validate", "{in}", "--strict"]), load.clone(), None, "text");
+            add!("blp", "validate", "strict", sv(&["blp", "validate", "{in}", "--strict"]), verdict(|| lib_blp_strict(p)), None, "text");
             add!("blp", "convert", "to-png", sv(&["blp", "convert", "{in}", "{out}.png"]), verdict(|| lib_blp_to_png(p)), Some(("png", "{out}.png".into(), String::new())), "text");
             add!(
                 "blp",
